@@ -41,6 +41,79 @@ Color("#abc").to_hex()
 """
 
 
+LOCALE_SCRIPT = """
+import sys, os, io
+sys.path.insert(0, %r)
+from cm_colors import ColorPair, make_readable_bulk
+cases = %r
+out = []
+real = sys.stdout
+for text, bg, large, mode, vr in cases:
+    plain = ColorPair(text, bg, large_text=large).make_readable(mode=mode, very_readable=vr)
+    sys.stdout = io.StringIO()
+    try:
+        try:
+            rep = ColorPair(text, bg, large_text=large).make_readable(mode=mode, very_readable=vr, save_report=True)
+        except Exception as e:
+            rep = "RAISED %%s: %%s" %% (type(e).__name__, e)
+    finally:
+        sys.stdout = real
+    out.append((repr(plain), repr(rep)))
+entries = [(c[0], c[1], c[2]) for c in cases]
+plain = make_readable_bulk(entries, mode=1)
+sys.stdout = io.StringIO()
+try:
+    try:
+        rep = make_readable_bulk(entries, mode=1, save_report=True)
+    except Exception as e:
+        rep = "RAISED %%s: %%s" %% (type(e).__name__, e)
+finally:
+    sys.stdout = real
+out.append((repr(plain), repr(rep)))
+import json
+print(json.dumps({"pairs": out, "files": sorted(n for n in os.listdir(".") if not n.startswith(".pyc"))}))
+"""
+
+
+def report_under_c_locale(shard, rec, rnd, k):
+    """save_report in a process whose default text encoding is not UTF-8 (LC_ALL=C with UTF-8 mode and locale coercion off, a legacy
+    code page): the report is a file the library writes itself, so the result must still equal the plain call's and nothing raises.
+    (show is not exercised here: a preview printed to an ASCII-only stdout fails on the unchanged tree like any print of a non-ASCII
+    character would - the environment is not one of the property's axes, see DESIGN section 6.)"""
+    import json
+    import subprocess
+    import sys
+    import tempfile
+    from cmv import env
+    cases = []
+    for cls, t, b in G.pair_classes(rnd, 4):
+        tk, tsp = rnd.choice(SP.available(tuple(t), ["hex6", "rgb", "hsl", "tuple", "keyword"]))
+        cases.append((tsp, tuple(b), rnd.random() < 0.4, rnd.randrange(3), rnd.random() < 0.5))
+    cases.append(("#777777", "#ffffff", False, 1, False))
+    d = tempfile.mkdtemp(prefix="c17locale-", dir=os.environ.get("CMV_SCRATCH"))
+    e = dict(os.environ)
+    e.update({"PYTHONDONTWRITEBYTECODE": "1", "LC_ALL": "C", "LANG": "C", "PYTHONUTF8": "0", "PYTHONCOERCECLOCALE": "0"})
+    e.pop("PYTHONPATH", None)
+    e.pop("PYTHONIOENCODING", None)
+    p = subprocess.run([sys.executable, "-c", LOCALE_SCRIPT % (env.SRC, cases)], cwd=d, env=e, stdout=subprocess.PIPE, stderr=subprocess.PIPE, timeout=600)
+    rec.ev()
+    rec.count("c_locale_report_windows")
+    case = {"lenient": repr(cases[0][0]), "bg": repr(cases[0][1]), "fresh": True, "locale": "C"}
+    try:
+        res = json.loads(p.stdout.decode("ascii", "replace").strip().splitlines()[-1])
+    except (ValueError, IndexError):
+        rec.violation(f"C-locale process (save_report): exit {p.returncode}, stderr {p.stderr[-300:]!r}", case)
+        return
+    for plain, rep in res["pairs"]:
+        rec.count("c_locale_report_calls")
+        if plain != rep:
+            rec.violation(f"default text encoding ASCII (LC_ALL=C, UTF-8 mode off): save_report=True gives {rep[:200]} but the plain call {plain[:200]}", case)
+            return
+    extra = [n for n in res["files"] if n not in ALLOWED]
+    if extra:
+        rec.violation(f"C-locale process (save_report) left files other than the documented reports: {extra[:4]}", case)
+
+
 def fresh_default_path(shard, rec):
     """The very first calls of a fresh interpreter (lazy imports and compilation included, no cached bytecode for the tree
     under test): nothing on stdout / stderr, nothing created in the working directory."""
@@ -68,6 +141,8 @@ def fresh_default_path(shard, rec):
             rec.violation(f"fresh interpreter, default path: exit {p.returncode}, stdout {p.stdout[:160]!r}, stderr {p.stderr[-300:]!r}, files {left[:4]}",
                           {"lenient": repr(cases[0][0]), "bg": repr(cases[0][1]), "fresh": True})
         rec.nontrivial(("fresh", shard["idx"], k))
+        if k == 0:
+            report_under_c_locale(shard, rec, rnd, k)
 
 
 def file_events_ok(w, cwd, allowed):
